@@ -47,9 +47,10 @@ class Cur:
 def rd(sel: List[int], cur: Cur, n: int) -> int:
     v = sel[cur.pos]
     cur.pos += 1
-    if not (0 <= v < n):
-        raise OutOfRange
-    return v
+    for i in range(n):
+        if v == i:
+            return i
+    raise OutOfRange
 
 
 def inner_leaf(i: int) -> AbstractType:
